@@ -32,7 +32,11 @@ func StartCore(confPath string, tries int) (*core.Core, bool) {
 		if ok || i+1 >= tries {
 			return p, ok
 		}
-		time.Sleep(time.Duration(30*(i+1)) * time.Millisecond)
+		d := 40 << i // 40 ms, 80 ms, ... capped at 2 s
+		if d > 2000 {
+			d = 2000
+		}
+		time.Sleep(time.Duration(d) * time.Millisecond)
 	}
 }
 
